@@ -477,6 +477,39 @@ func checkC08(c C08Case, r *Rec) *Violation {
 			}
 		}
 	}
+	// key allocation on a copy leaves the source's future allocations alone: the source registers a name,
+	// is copied, the copy registers another, the source gets a key written by hand and registers a third -
+	// and gets the key it gets when no copy was ever made (a twin history without the copy)
+	for variant := 0; variant < 6; variant++ {
+		ext, cnt := variant%2 == 1, 1+variant/2 // (as many names on the copy as keys written by hand, 1..3)
+		history := func(withCopy bool) (eval.VariableKey, eval.VariableKey) {
+			a := eval.CopyConfig(cc)
+			eval.GetOrRegisterKey(a, "zz_first")
+			if withCopy {
+				var b *eval.Config
+				if ext {
+					b = eval.NewConfig(eval.ExtendConf(a))
+				} else {
+					b = eval.CopyConfig(a)
+				}
+				for i := 0; i < cnt; i++ {
+					eval.GetOrRegisterKey(b, fmt.Sprintf("zz_on_the_copy_%d", i))
+				}
+			}
+			for i := 0; i < cnt; i++ {
+				a.VariableKeyMap[fmt.Sprintf("zz_by_hand_%d", i)] = eval.VariableKey(31990 + i)
+			}
+			k1 := eval.GetOrRegisterKey(a, "zz_third")
+			delete(a.VariableKeyMap, "zz_by_hand_0")
+			k2 := eval.GetOrRegisterKey(a, "zz_fourth")
+			return k1, k2
+		}
+		w1, w2 := history(false)
+		g1, g2 := history(true)
+		if w1 != g1 || w2 != g2 {
+			return Violf("C08: registering %d name(s) on a copy (ExtendConf=%v) changes the keys the source hands out afterwards: %d, %d with the copy, %d, %d without\n%s", cnt, ext, g1, g2, w1, w2, describe())
+		}
+	}
 	// the nil config: Compile(nil, ...) stands for a fresh default config every time. Name-free probes are
 	// compiled first; then name-free variants of the case's sources, with their directives (valid and
 	// malformed) in front, are compiled with a nil config as well; the probes must still compile to what
